@@ -56,13 +56,13 @@ def tasks(tier):
         nb = 5 ** sum(sub_sizes(sid))
         k = {"MD23": 12, "D4": 2, "D5": 12}.get(sid, 1)
         for c in range(k):
-            out.append({"algo": "PPO", "space": sid, "mode": "W", "chunk": [c, k], "_cost": nb / k * 0.3})
+            out.append({"algo": "PPO", "space": sid, "mode": "W", "chunk": [c, k], "_cost": nb / k * 0.004})
         for kind in cm.OBS_KINDS:
-            out.append({"algo": "PPO", "space": sid, "mode": "S", "obs": kind, "_cost": 60 * sum(sub_sizes(sid))})
+            out.append({"algo": "PPO", "space": sid, "mode": "S", "obs": kind, "_cost": 2 * sum(sub_sizes(sid)) * (3 if tier == "thorough" else 1)})
     for sid in cm.BOX_IDS:
-        out.append({"algo": "PPO", "space": sid, "mode": "W", "_cost": 10})
+        out.append({"algo": "PPO", "space": sid, "mode": "W", "_cost": 0.3})
         for kind in cm.OBS_KINDS:
-            out.append({"algo": "PPO", "space": sid, "mode": "S", "obs": kind, "_cost": 50})
+            out.append({"algo": "PPO", "space": sid, "mode": "S", "obs": kind, "_cost": 3})
     return out
 
 
